@@ -1,5 +1,5 @@
 (* C11 model driver: reads the case file, prints one line per case:
-     <model (code after proposed fixes)> ## <spec oracle> ## <model of the code as snapshotted>
+     <model (code after proposed fixes)> ## <spec oracle> ## <model of the code as snapshotted> ## <deep: private state of the model, or ->
    Case line: <container> <param> <op> <op> ...   (see checks/C11.py for the op grammar)
    Per step observations are joined by ';'.  UB = model hits a null/freed dereference, PRE = history violates a
    documented precondition (spec), FUEL = loop bound. *)
@@ -24,11 +24,14 @@ let al_op t = match split ':' t with
   | ["set"; i; v] -> AlSet (nat_of_int (ios i), ios v) | ["hold"; k] -> AlHold (nat_of_int (ios k))
   | _ -> failwith ("bad al op " ^ t)
 let al_obs ((n, l), h) = Printf.sprintf "%d[%s]%s" (int_of_nat n) (ints l) (match h with Some v -> string_of_int v | None -> "-")
+let al_deep (((st, sz), cap), nulls) =
+  Printf.sprintf "%d,%d,%d,%s" (int_of_nat st) (int_of_nat sz) (int_of_nat cap) (String.concat "" (List.map b01 nulls))
 let run_al n ops =
   let ops = List.map al_op ops and nn = nat_of_int n in
   join (List.map (show_res al_obs) (c11_al_run 0 nn true (c11_al_empty, None) ops)),
   join (List.map (show_opt al_obs) (c11_als_run ([], None) ops)),
-  join (List.map (show_res al_obs) (c11_alo_run 0 nn (c11_alo_empty, None) ops))
+  join (List.map (show_res al_obs) (c11_alo_run 0 nn (c11_alo_empty, None) ops)),
+  join (List.map (show_res al_deep) (c11_al_run_deep 0 nn true (c11_al_empty, None) ops))
 
 (* ---------------- SLList *)
 let bi s = (s = "1")
@@ -46,7 +49,8 @@ let run_sl ops =
   let w0 = (c11_sl_empty 0, c11_sl_empty 0) in
   join (List.map (show_res sl_obs) (c11_sl_run 0 (=) true w0 ops)),
   join (List.map (show_opt sl_obs) (c11_sls_run (=) ([], []) ops)),
-  join (List.map (show_res sl_obs) (c11_sl_run 0 (=) false w0 ops))
+  join (List.map (show_res sl_obs) (c11_sl_run 0 (=) false w0 ops)),
+  join (List.map (show_res (fun ((a, b), (c, d)) -> b01 a ^ b01 b ^ " " ^ b01 c ^ b01 d)) (c11_sl_run_deep 0 true w0 ops))
 
 (* ---------------- lru *)
 let lru_op t = match split ':' t with
@@ -63,7 +67,8 @@ let run_lru nk ops =
   let ops = List.map lru_op ops and nk = nat_of_int nk in
   join (List.map (show_res lru_obs) (c11_lru_run true nk (c11_lru_empty, LruVoid) ops)),
   join (List.map (show_opt lru_obs) (c11_lrus_run nk ([], LruVoid) ops)),
-  join (List.map (show_res lru_obs) (c11_lru_run false nk (c11_lru_empty, LruVoid) ops))
+  join (List.map (show_res lru_obs) (c11_lru_run false nk (c11_lru_empty, LruVoid) ops)),
+  "-"
 
 (* ---------------- ReservedVector *)
 let rv_op t = match split ':' t with
@@ -88,7 +93,7 @@ let run_rv n ops =
   let ops = List.map rv_op ops and nn = nat_of_int n in
   let w0 = ((c11_rv_empty 0 nn, c11_rv_empty 0 nn), None) in
   let m = join (List.map (show_res rv_obs) (c11_rv_run 0 (=) (<) nn w0 ops)) in
-  m, join (List.map (show_opt rvs_obs) (c11_rvs_run (=) (<) nn (([], []), None) ops)), m
+  m, join (List.map (show_opt rvs_obs) (c11_rvs_run (=) (<) nn (([], []), None) ops)), m, "-"
 
 (* ---------------- BitSetVector *)
 let bop = function "and" | "andb" -> BvAnd | "or" | "orb" -> BvOr | _ -> BvXor
@@ -108,19 +113,19 @@ let bv_obs ((bl, c), cm) =
 let run_bv bs ops =
   let ops = List.map bv_op ops and bs = nat_of_int bs in
   let m = join (List.map (show_res bv_obs) (c11_bv_run bs [] ops)) in
-  m, join (List.map (show_opt bv_obs) (c11_bvs_run bs [] ops)), m
+  m, join (List.map (show_opt bv_obs) (c11_bvs_run bs [] ops)), m, "-"
 
 let () =
   let ic = open_in Sys.argv.(1) in
   (try while true do
     let line = String.trim (input_line ic) in
     let t = List.filter (fun s -> s <> "") (split ' ' line) in
-    let (m, s, o) = match t with
+    let (m, s, o, dp) = match t with
       | "al" :: n :: ops -> run_al (ios n) ops
       | "sl" :: _ :: ops -> run_sl ops
       | "lru" :: nk :: ops -> run_lru (ios nk) ops
       | "rv" :: n :: ops -> run_rv (ios n) ops
       | "bv" :: bs :: ops -> run_bv (ios bs) ops
-      | _ -> ("UNKNOWN", "UNKNOWN", "UNKNOWN") in
-    print_string m; print_string " ## "; print_string s; print_string " ## "; print_endline o
+      | _ -> ("UNKNOWN", "UNKNOWN", "UNKNOWN", "-") in
+    print_string m; print_string " ## "; print_string s; print_string " ## "; print_string o; print_string " ## "; print_endline dp
   done with End_of_file -> ())
